@@ -38,12 +38,12 @@ abbrev FS := PPath → Option Node
 def FS.set (fs : FS) (p : PPath) (n : Option Node) : FS := fun q => if q = p then n else fs q
 
 inductive Errno where
-  | enoent | enotdir | eisdir | eexist | eloop | invalidPath
+  | enoent | enotdir | eisdir | eexist | eloop | invalidPath | enotempty
   deriving DecidableEq, Repr
 
 def Errno.toString : Errno → String
   | .enoent => "ENOENT" | .enotdir => "ENOTDIR" | .eisdir => "EISDIR" | .eexist => "EEXIST"
-  | .eloop => "ELOOP" | .invalidPath => "InvalidPath"
+  | .eloop => "ELOOP" | .invalidPath => "InvalidPath" | .enotempty => "ENOTEMPTY"
 
 /-- mutating system calls, with the physical path acted on -/
 inductive Mut where
@@ -52,10 +52,11 @@ inductive Mut where
   | symlink (p : PPath) (target : Bytes)
   | write (p : PPath)
   | chmod (p : PPath) (mode : Nat)
+  | rmdir (p : PPath)
   deriving DecidableEq, Repr
 
 def Mut.target : Mut → PPath
-  | .mkdir p => p | .unlink p => p | .symlink p _ => p | .write p => p | .chmod p _ => p
+  | .mkdir p => p | .unlink p => p | .symlink p _ => p | .write p => p | .chmod p _ => p | .rmdir p => p
 
 /-! ### path resolution (namei) -/
 
@@ -319,5 +320,72 @@ def deletePhase (v : Bytes → Bool) (root : PPath) (paths : List Bytes) (st : S
 read the file only when it reports a regular file) -/
 def precheckOld (root : PPath) (path : Bytes) (fs : FS) : Except Errno Node :=
   lstatTracked fs root (splitOn pathSep path)
+
+/-! ### the write (add/modify) phase of `update_working_tree`, as coded -/
+
+/-- `os.rmdir(path)`.  The model's file system is a function, so whether a directory is empty is decided by the
+parameter `isEmpty` (the theorems hold for every such parameter; the driver instantiates it on its finite FS). -/
+def sysRmdir (isEmpty : FS → PPath → Bool) (fs : FS) (root : PPath) (comps : List Name) : Except Errno (FS × Mut) :=
+  match resolve fs (fuelFor comps.length) root comps false with
+  | .error e => .error e
+  | .ok p => match fs p with
+    | none => .error .enoent
+    | some .dir => if isEmpty fs p then .ok (fs.set p none, .rmdir p) else .error .enotempty
+    | some _ => .error .enotdir
+
+/-- mode comparison of `_check_file_matches` (honor_filemode): only 0644 vs 0755 counts -/
+def normCurMode (m : Nat) : Nat :=
+  let x := m &&& 0o755
+  if x = 0o644 ∨ x = 0o755 then x else if m &&& 0o100 ≠ 0 then 0o755 else 0o644
+
+def normExpMode (m : Nat) : Nat :=
+  let y := (m % 4096) &&& 0o755
+  if y = 0o644 ∨ y = 0o755 then y else 0o644
+
+/-- `needs_update = False` in `_transition_to_file`: file→file with equal mode class and bytes, or symlink→symlink
+with equal target -/
+def upToDate (cur : Node) (e : Entry) : Bool :=
+  match cur with
+  | .file c m => !isLnkMode e.mode && c == e.content && normCurMode m == normExpMode e.mode
+  | .link t => isLnkMode e.mode && t == e.content
+  | .dir => false
+
+/-- One add/modify of `update_working_tree` for a blob or symlink entry (gitlinks and the `.git`-only-directory
+`rmtree` branch are not modelled): `validate_path` (invalid: raise), `verify_leading_dirs(path, CACHE, repo_path)`,
+`lstat(full_path)`, then `_transition_to_file`: nothing if up to date; otherwise remove what is there (`rmdir` of a
+directory — not empty: raise —, `unlink` of anything else), `_ensure_parent_dir_exists`, `build_file_from_blob`.
+`fresh = true` is the code as it stands: CACHE is a new empty list for every path.  `fresh = false` is the variant
+that threads ONE `safe_prefix` list through the whole update (kept to show why that is unsound: rmdir and symlink
+creation do not invalidate it). -/
+def uwtWriteG (fresh : Bool) (isEmpty : FS → PPath → Bool) (v : Bytes → Bool) (root : PPath) (e : Entry) (st : St) : Step :=
+  if validatePath v e.path = false then (st, some .invalidPath)
+  else
+    let comps := splitOn pathSep e.path
+    match verifyLeadingDirs st.fs root comps (if fresh then [] else st.safe) with
+    | .error err => (st, some err)
+    | .ok safe' =>
+      let st := { st with safe := if fresh then st.safe else safe' }
+      let writeIt : St → Step := fun s =>
+        (ensureParent root comps.dropLast s).andThen (buildFileFromBlob root comps e.mode e.content)
+      match lstat st.fs root comps with
+      | .error .enoent => writeIt st
+      | .error err => (st, some err)
+      | .ok cur =>
+        if upToDate cur e then (st, none)
+        else
+          (match cur with
+           | .dir => st.apply (sysRmdir isEmpty st.fs root comps)
+           | _ => st.apply (sysUnlink st.fs root comps)).andThen writeIt
+
+def uwtWritePhaseG (fresh : Bool) (isEmpty : FS → PPath → Bool) (v : Bytes → Bool) (root : PPath) : List Entry → St → Step
+  | [], st => (st, none)
+  | e :: es, st => (uwtWriteG fresh isEmpty v root e st).andThen (uwtWritePhaseG fresh isEmpty v root es)
+
+/-- `update_working_tree` as coded now: all deletions first, then all writes (non-directory deletes; blob/symlink
+writes); the translator reads from the source that every `verify_leading_dirs` call of the function gets a fresh
+`[]` (`Gen.uwtFreshCache`) and that old paths are lstat'ed through `_lstat_tracked_path` (`Gen.deleteGuarded`). -/
+def updateWorkingTree (isEmpty : FS → PPath → Bool) (v : Bytes → Bool) (root : PPath) (deletes : List Bytes)
+    (adds : List Entry) (st : St) : Step :=
+  (deletePhase v root deletes st).andThen (uwtWritePhaseG uwtFreshCache isEmpty v root adds)
 
 end Dulwich.Checkout
